@@ -49,7 +49,10 @@ RULE_ADDED = (
               ' '
               'Round 11: fault-free histories (first change, forced changes, restarts) in a chi'
               'ld process that has given up root (uid 65534), when the check itself runs as roo'
-              't. ')
+              't. '
+              ' '
+              'Round 12: the request that runs into the repairing PIN change is of every comman'
+              'd. ')
 RULE = RULE + " " + RULE_ADDED.strip()
 ASSUMPTIONS = [
     "simulated device keeps its PIN in a state file written before it acknowledges (its NVM)",
@@ -252,6 +255,14 @@ def running_phase(s, dev, step, platform):
     from comm.server import RequestHandlerShutdown
     req = {"command": "getPubKey", "version": 1 if step.get("v1") else 5,
            "keyId": "m/44'/0'/0'/0/0"}
+    if step.get("request_kind") is not None:
+        # the requests that run into the repair are of any command (each handler calls
+        # the reconnection itself, inside its own error handling)
+        from . import c02
+        pool = [v for k_, v in sorted(c02.bases(random.Random(step["request_kind"]),
+                                                bool(step.get("v1"))).items())
+                if k_ not in ("version", "uiHeartbeat")]
+        req = pool[step["request_kind"] % len(pool)]
     s.bus.arm({0: Fault(step["running"])})
     r1, e1, _ = s.request(req)
     s.bus.arm({})
@@ -512,6 +523,12 @@ def gen_histories(spec, tmpdir):
                 cases.append({"platform": platform, "start": start, "steps": [
                     {"platform": platform, "force": force, "running": lk, "fs_fault": "write"},
                     {"platform": platform}]})
+                # the same with every other command as the one that runs into the repair
+                for rk in range(11):
+                    cases.append({"platform": platform, "start": start, "steps": [
+                        {"platform": platform, "force": force, "running": lk,
+                         "request_kind": rk},
+                        {"platform": platform}]})
                 # the same, and the client whose request triggers the repair has hung up
                 # by the time the reply is written
                 cases.append({"platform": platform, "start": start, "steps": [
